@@ -341,8 +341,8 @@ func withBudget(steps, outs int, f func()) {
 }
 
 const (
-	bigSteps = 2000000
-	bigOuts  = 10000
+	bigSteps = 250000
+	bigOuts  = 6000
 )
 
 func exec(code *gojq.Code, in any, vs []any) run.Result {
@@ -517,6 +517,10 @@ func replayCase(sub string, raw json.RawMessage) string {
 			return "bad replay: " + err.Error()
 		}
 		return checkSync(c)
+	case strings.HasPrefix(sub, "size-"):
+		return replaySize(sub, raw)
+	case strings.HasPrefix(sub, "utf8-"):
+		return replayUTF8(sub, raw)
 	case sub == "fromjson" || sub == "fromjson-random":
 		return replayFromJSON(raw)
 	case sub == "regex" || sub == "regex-random":
@@ -555,6 +559,8 @@ func TestC03(t *testing.T) {
 	runRegex(t)
 	runFromJSON(t)
 	universeIntact(t, "fromjson")
+	runSize(t)
+	runUTF8(t)
 }
 
 // universeIntact: the shared universe values are passed to gojq by reference;
